@@ -232,6 +232,7 @@ int32_t tls13NewTicket(ssl_t *ssl,
     rc = psAesReadyGCMRandomIV(&ctx, iv, NULL, 0, NULL);
     if (rc < 0)
     {
+        psDynBufUninit(&buf);
         tls13FreePsk(psk, ssl->hsPool);
         psAesClearGCM(&ctx);
         return rc;
@@ -245,6 +246,7 @@ int32_t tls13NewTicket(ssl_t *ssl,
             &stateLen);
     if (rc < 0)
     {
+        psDynBufUninit(&buf);
         tls13FreePsk(psk, ssl->hsPool);
         psAesClearGCM(&ctx);
         return rc;
@@ -508,6 +510,7 @@ int32_t tls13ExportState(ssl_t *ssl,
         &paramsDataLen);
     if (paramsData == NULL)
     {
+        psDynBufUninit(&buf);
         return PS_MEM_FAIL;
     }
     psDynBufAppendTlsVector(&buf,
